@@ -306,6 +306,15 @@ pub const UNWIND_MARK: &str = "UNWIND-MISMATCH ";
 
 /// Execute a call on the given set of interpreters.
 pub fn exec_call(ls: &Langs, call: &Call, yield_on: bool) -> String {
+    // allocator seam: while the call runs, small blocks freed on this thread are handed out again for the
+    // next same-sized request of a library call on this thread (deterministic address reuse)
+    let prev = crate::alloc::in_library(true);
+    let r = exec_call_inner(ls, call, yield_on);
+    crate::alloc::in_library(prev);
+    r
+}
+
+fn exec_call_inner(ls: &Langs, call: &Call, yield_on: bool) -> String {
     let normal = with_lang!(ls, call.lang, call.concrete, l => exec_with(l, call, yield_on));
     if !call.during_unwind {
         return normal;
@@ -855,6 +864,7 @@ pub fn run_case(case: &Case) -> Exec {
                 let r = exec_call(ls, &calls[ci], true);
                 results.lock().unwrap()[ti].push((ci, r));
             }
+            crate::alloc::drain();
         }));
     }
     let report = sched.run(fns);
